@@ -557,6 +557,15 @@ func gen(r *vgen.Rng, tier string) []Case {
 			out = append(out, sharedCase(r, p.name, p.chain, cat))
 		}
 	}
+	// 4. every poison with long fields (long.go); own stream: the cases above stay what they were
+	{
+		lr := vgen.NewRng(r.U64())
+		for _, p := range paths {
+			if p.chain != "btc" { // BTC: the 76..10000-byte payloads of scripts.go
+				out = append(out, longCases(lr, p.name, p.chain)...)
+			}
+		}
+	}
 	for i := range out {
 		out[i] = normalise(out[i])
 	}
